@@ -18,13 +18,17 @@ for pid in sorted(ids):
         if name.startswith('sweep.'):
             fs.append('annotation-free sweep `%s`'%name[6:]); continue
         fs.append('`'+name.split('/')[-1]+'`')
-    txt=', '.join(fs)
+    if len(fs)>30:
+        keep=[f for f in fs if 'graph).stmt' in f or 'sweep' in f]
+        txt=', '.join(keep)+' + %d functions / literals of the zero-annotation safety sweep that have at least one discharged obligation'%(len(fs)-len(keep))
+    else:
+        txt=', '.join(fs)
     if nl: txt+=' + %d lemmas'%nl
     b=c.get('bounded') or []
     for x in b:
         txt+='; **bounded** stand-in `%s`'%x.get('name','?')
     unp=c.get('unproved_not_counted',[])
-    rows.append('| %s | %s | %d (%s) | %s |'%(pid,txt,c['discharged'],', '.join('%s %d'%(k,v) for k,v in sorted(c.get('by_solver',{}).items())), '; '.join('`'+u+'`' for u in unp) if unp else '—'))
+    rows.append('| %s | %s | %d (%s) | %s |'%(pid,txt,c['discharged'],', '.join('%s %d'%(k,v) for k,v in sorted(c.get('by_solver',{}).items())), (('; '.join('`'+u+'`' for u in unp[:2]) + (' … (%d more)'%(len(unp)-2) if len(unp)>2 else '')) if unp else '—')))
 table='\n'.join(rows)
 sd=['| change | check | result | first failing obligation |','|---|---|---|---|']
 for l in open(V+'/seeded/RESULTS.txt'):
